@@ -299,7 +299,9 @@ class Check(PropertyCheck):
         if case["transport"] == "tcp" and not all(0 < len(m) <= U16 for m in msgs): return None
         data = b"".join(frame(m) for m in msgs) if case["transport"] == "tcp" else msgs[0]
         tbl = D.idna_table(msgs)
-        return [f"fwd {tbl} {case['transport']} {hx(data)}"] + [f"ref {h}" for h in case["msgs_hex"]] + [f"ref {h}" for h in obs["out"]]
+        # `live`: the executable precondition of `live_checked_is_forwarded` against its Python twin (small messages only)
+        return [f"fwd {tbl} {case['transport']} {hx(data)}"] + [f"ref {h}" for h in case["msgs_hex"]] + [f"ref {h}" for h in obs["out"]] \
+            + [f"live {h}" for h in case["msgs_hex"] if len(h) <= 8192]
 
     def model_obs(self, case, replies):
         return list(replies)
@@ -309,7 +311,8 @@ class Check(PropertyCheck):
         if st == "crashed": f = "crashed"
         elif case["transport"] == "tcp": f = st + " " + (",".join(hx(frame(unhx(h))) for h in obs["out"]) or "-")
         else: f = st + " " + (",".join(obs["out"]) or "-")
-        return [f] + [D.ref_view(unhx(h)) for h in case["msgs_hex"]] + [D.ref_view(unhx(h)) for h in obs["out"]]
+        return [f] + [D.ref_view(unhx(h)) for h in case["msgs_hex"]] + [D.ref_view(unhx(h)) for h in obs["out"]] \
+            + [("1" if D.live_twin(unhx(h)) else "0") for h in case["msgs_hex"] if len(h) <= 8192]
 
     # ------------------------------------------------------------------ evidence
     def classify(self, case, obs):
